@@ -33,6 +33,7 @@ META = {
 }
 META["explanation"] += ' Also DEP-C03 KEY (credits tracked as differenced) and the process-wide NumPy error mode.'
 META["explanation"] += ' Round 5: DEP-C02 SAME operator (which base tracker is selected; the estimate trackers are independent copies). HAZARD: constructs that do not mean what they look like, met in the analysed code (defaults evaluated once, class-level containers changed through self, dict.fromkeys with a shared mutable value, late-binding lambdas, truth value of objects that define __len__) are reported by every check.'
+META["explanation"] += ' Round 6: DEP-C12 ZERODIV and DEP-C13 dispatch.'
 MIN_INSTANCES = {"CENTRED": 2, "PLAIN": 4, "NOCAST": 1, "DENOM": 2, "CHAIN": 1}
 NARROW = {"numpy.float32", "numpy.float16", "numpy.half", "numpy.single", "numpy.csingle", "numpy.complex64",
           "torch.float16", "torch.bfloat16"}
